@@ -4,6 +4,7 @@
    unique and valid with at least one visible sheet (sheet collection, any history).  Everything else the property
    lists is decided by the independent validator on the implementation. *)
 From VF Require Import Base.Prelude Generated.Consts Sheet.Model Sheet.Proofs Sheet.Readers C05.Proofs C16.Model C16.Proofs.
+From VF Require Import C03.Merge C03.MergeProofs.
 
 Theorem C05_rows_cells_wf : forall ops, Forall op_ok ops ->
   forall i r, nth_error (xml_rows (run ops empty_sheet)) i = Some r ->
@@ -27,3 +28,10 @@ Example C05_ex :
   map r_r (xml_rows sh) = [1; 2; 3; 4; 5; 6; 7] /\
   map (fun r => map c_col (r_cells r)) (xml_rows sh) = [[1; 2]; [1; 2]; [2; 3; 5]; []; []; []; [1]].
 Proof. vm_compute. repeat split. Qed.
+
+(* the <mergeCells> element the worksheet writer emits (workSheetWriter -> mergeOverlapCells) never holds two
+   ranges sharing a cell, whatever ranges the sheet accumulated *)
+Theorem C05_merged_ranges_disjoint : forall cells, Forall rect_ok cells ->
+  ForallOrdPairs disjoint (norm cells) /\ Forall rect_ok (norm cells).
+Proof. intros cells H. destruct (norm_disjoint cells H) as (A & B & _). exact (conj A B). Qed.
+Print Assumptions C05_merged_ranges_disjoint.
